@@ -89,12 +89,15 @@ fn run_isolated(rec: &Value, ms: u64) -> Value {
         let mut si = child.stdin.take().unwrap();
         let _ = writeln!(si, "{}", rec);
     }
+    // read the child's answer concurrently: an answer larger than the pipe buffer would otherwise block the child
+    // for ever and look like a time-out of the library
+    let mut so = child.stdout.take().unwrap();
+    let reader = std::thread::spawn(move || { let mut s = String::new(); let _ = so.read_to_string(&mut s); s });
     let start = std::time::Instant::now();
     loop {
         match child.try_wait() {
             Ok(Some(status)) => {
-                let mut s = String::new();
-                let _ = child.stdout.take().unwrap().read_to_string(&mut s);
+                let s = reader.join().unwrap_or_default();
                 if let Ok(v) = serde_json::from_str::<Value>(s.trim()) {
                     return v;
                 }
@@ -105,6 +108,7 @@ fn run_isolated(rec: &Value, ms: u64) -> Value {
                 if start.elapsed().as_millis() as u64 > ms {
                     let _ = child.kill();
                     let _ = child.wait();
+                    let _ = reader.join();
                     return json!({"panic": false, "timeout": true});
                 }
                 std::thread::sleep(std::time::Duration::from_millis(2));
